@@ -261,3 +261,40 @@ func VerifC55_response() {
 	vrt.Assert(err != nil, "C55/response-stream-ends")
 	vrt.Assert(bytes.Equal(got, want), "C55/response-body-is-stdout-only")
 }
+
+// ---------------------------------------------------------------- focused checks (seeded-change review)
+
+// VerifC55_bigRecord: the responder sends one STDOUT record at the top of the 16-bit content length range
+// (65000, 65528, 65529, 65535 bytes; first and last byte symbolic, pattern between) with 0, 1, 7 or 255
+// padding bytes — contentLength + paddingLength may exceed 65535, which is legal (FastCGI 3.3) and what
+// net/http/fcgi emits for large replies —, then a 2-byte STDOUT record and END_REQUEST. The reader must
+// yield exactly the two contents.
+func VerifC55_bigRecord() {
+	cl := []int{65000, 65528, 65529, 65535}[vrt.Choose("contentLen", 4)]
+	pl := []int{0, 1, 7, 255}[vrt.Choose("pad", 4)]
+	content := bytes.Repeat([]byte("0123456789abcdef"), 4096)[:cl]
+	content[0], content[cl-1] = vrt.Byte("first"), vrt.Byte("last")
+	small := vrt.Bytes("small", 2)
+	var wire []byte
+	wire = append(wire, 1, FCGIStdout, 0, 1, byte(cl>>8), byte(cl), byte(pl), 0)
+	wire = append(wire, content...)
+	wire = append(wire, make([]byte, pl)...)
+	wire = append(wire, 1, FCGIStdout, 0, 1, 0, 2, 6, 0)
+	wire = append(wire, small...)
+	wire = append(wire, 0, 0, 0, 0, 0, 0)
+	wire = append(wire, 1, FCGIEndRequest, 0, 1, 0, 8, 0, 0, 0, 0, 0, 0, 0, 0, 0, 0)
+	c := &rwcC55{in: wire}
+	client := &FCGIClient{rwc: c, reqId: 1}
+	r := &streamReader{c: client}
+	var got []byte
+	var err error
+	buf := make([]byte, 70000)
+	for i := 0; i < 6 && err == nil; i++ {
+		var n int
+		n, err = r.Read(buf)
+		got = append(got, buf[:n]...)
+	}
+	vrt.Assert(err == io.EOF, "C55/big-record-stream-ends")
+	vrt.Assert(len(got) == cl+2, "C55/big-record-length")
+	vrt.Assert(bytes.Equal(got, append(append([]byte{}, content...), small...)), "C55/big-record-body-exact")
+}
